@@ -255,12 +255,13 @@ def make(interp):
         keys = [interp.call(key, [x], {}) if key is not None else x for x in xs]
         if any(is_sym(k) for k in keys):
             # stable insertion sort; every comparison branches, so each feasible order is explored on its own path
-            if reverse or len(xs) > 4:
-                raise Unsupported('sorted() with symbolic keys (reverse, or more than 4 items)')
+            if len(xs) > 8:
+                raise Unsupported('sorted() with symbolic keys (more than 8 items)')
             order = []
             for i in range(len(xs)):
                 pos = len(order)
-                while pos > 0 and truth(keys[i] < keys[order[pos - 1]]):
+                # stable: an item moves ahead of strictly larger (reverse: strictly smaller) keys only; reverse=True keeps ties in input order
+                while pos > 0 and truth((keys[i] > keys[order[pos - 1]]) if reverse else (keys[i] < keys[order[pos - 1]])):
                     pos -= 1
                 order.insert(pos, i)
             return core.TList(xs[i] for i in order)
